@@ -528,15 +528,23 @@ class Table(Vector):
 				raise _missing_col_error(old)
 			simulated[idx] = new  # simulate rename
 
-		# Apply renames for real
-		for old, new in zip(old_names, new_names):
-			# rename the FIRST matching column in the real table
-			for col in self._underlying:
-				if col._name == old:
-					col._name = new
-					break
+		# Apply renames for real. Names are caller objects: comparing them or turning them
+		# into accessors (str()) can raise, so roll everything back if anything does.
+		original_names = [col._name for col in self._underlying]
+		try:
+			for old, new in zip(old_names, new_names):
+				# rename the FIRST matching column in the real table
+				for col in self._underlying:
+					if col._name == old:
+						col._name = new
+						break
 
-		self._column_map = self._build_column_map()
+			self._column_map = self._build_column_map()
+		except BaseException:
+			for col, original in zip(self._underlying, original_names):
+				col._name = original
+				col._wild = True  # accessor map is rebuilt on next use
+			raise
 		return self
 
 	@property
